@@ -616,7 +616,7 @@ def _qpow(run):
             start_ok = True
         if isinstance(n, ast.If) and matches('%s < 0' % power, n.test) is not None:
             for st in n.body:
-                if isinstance(st, ast.Assign) and matches('conj(%s)' % acc, cx.c(st.value)) is not None:
+                if isinstance(st, (ast.Assign, ast.Return)) and st.value is not None and matches('conj(%s)' % acc, cx.c(st.value)) is not None:
                     conj_ok = True
     (run.holds if start_ok else run.violation)('R15', subj, 'fold start', 'accumulator starts at the identity quaternion' if start_ok
                                                else 'accumulator does not start at eye(): q**0 is not the identity', f=f)
@@ -811,7 +811,7 @@ class _Subst(ast.NodeTransformer):
         return n
 
 
-def sl_eval(cx, stmts=None, env=None, keep_params=True):
+def sl_eval(cx, stmts=None, env=None, keep_params=True, with_conds=False):
     """Symbolic evaluation by path enumeration over structured code without loops: returns a list of
     (Return node, canonical value expression with every local substituted by its defining expression along that path).
     `if` arms that only raise are skipped; other `if/else` statements fork the environment."""
@@ -862,7 +862,9 @@ def sl_eval(cx, stmts=None, env=None, keep_params=True):
             elif isinstance(st, ast.Return):
                 if st.value is not None:
                     for e in envs:
-                        out.append((st, _Subst(e).visit(canon(cx.fi, st.value, inline=False))))
+                        ee = {k: v for k, v in e.items() if k != '__conds'}
+                        val = _Subst(ee).visit(canon(cx.fi, st.value, inline=False))
+                        out.append((st, val, list(e.get('__conds', []))) if with_conds else (st, val))
                 return []
             elif isinstance(st, ast.Raise):
                 return []
@@ -877,8 +879,13 @@ def sl_eval(cx, stmts=None, env=None, keep_params=True):
                             if isinstance(y, ast.Name) and isinstance(y.ctx, ast.Store):
                                 e.pop(y.id, None)
                     continue
-                nxt += run(st.body, [dict(e) for e in envs], depth + 1)
-                nxt += run(st.orelse, [dict(e) for e in envs], depth + 1) if st.orelse else [dict(e) for e in envs]
+                def withc(e, pol):
+                    e = dict(e)
+                    ee = {k: v for k, v in e.items() if k != '__conds'}
+                    e['__conds'] = list(e.get('__conds', [])) + [(_Subst(ee).visit(canon(cx.fi, st.test, inline=False)), pol)]
+                    return e
+                nxt += run(st.body, [withc(e, True) for e in envs], depth + 1)
+                nxt += run(st.orelse, [withc(e, False) for e in envs], depth + 1) if st.orelse else [withc(e, False) for e in envs]
                 envs = nxt
             elif isinstance(st, (ast.Expr, ast.Pass, ast.Assert, ast.Import, ast.ImportFrom)):
                 continue
@@ -894,12 +901,13 @@ def sl_eval(cx, stmts=None, env=None, keep_params=True):
     # de-duplicate identical (return, expression) pairs
     seen = set()
     res = []
-    for (r, e) in out:
+    for item in out:
+        r, e = item[0], item[1]
         e = _StripNorm().visit(e)
-        k = (id(r), ast.dump(e))
+        k = (id(r), ast.dump(e)) if not with_conds else (id(r), ast.dump(e), tuple((ast.dump(c), p) for c, p in item[2]))
         if k not in seen:
             seen.add(k)
-            res.append((r, e))
+            res.append((r, e, item[2]) if with_conds else (r, e))
     return res
 
 
@@ -997,7 +1005,45 @@ def _rot_word(cx, e, angles):
         b = matches('rot%s(%s[_I])' % (ax, angles), e)
         if b is not None and isinstance(b['_I'], ast.Constant):
             return [(ax, b['_I'].value)]
+        b = matches('rot%s(_N)' % ax, e)
+        if b is not None and isinstance(b['_N'], ast.Name) and b['_N'].id in _unpacked_slots(cx):
+            return [(ax, _unpacked_slots(cx)[b['_N'].id])]
     return None
+
+
+def _unpacked_slots(cx):
+    """r, p, y = <angle vector>  ->  {r: 0, p: 1, y: 2}  (a 3-name tuple assignment whose value is not itself a tuple display)"""
+    m = getattr(cx, '_slots', None)
+    if m is None:
+        m = {}
+        for st in own_walk(cx.f.node):
+            if isinstance(st, ast.Assign) and len(st.targets) == 1 and isinstance(st.targets[0], (ast.Tuple, ast.List)) and \
+                    len(st.targets[0].elts) == 3 and all(isinstance(t, ast.Name) for t in st.targets[0].elts) and \
+                    not isinstance(st.value, (ast.Tuple, ast.List)):
+                for i, t in enumerate(st.targets[0].elts):
+                    m[t.id] = i
+        cx._slots = m
+    return m
+
+
+def _packs_params(run, f, depth=0):
+    """the scalar call form packs the first three parameters in order: `[p0, p1, p2]` in f, or in a helper that f calls with
+    (p0, p1, p2, ...) as its first arguments"""
+    ps = [p for p in f.params if p != f.selfname][:3]
+    if len(ps) < 3:
+        return False
+    for st in ast.walk(f.node):
+        if isinstance(st, (ast.List, ast.Tuple)) and len(st.elts) == 3 and all(isinstance(x, ast.Name) for x in st.elts) and \
+                [x.id for x in st.elts] == ps and isinstance(getattr(st, 'ctx', None), ast.Load):
+            return True
+    if depth < 1:
+        fi = FuncInfo.of(f)
+        for c in own_walk(f.node):
+            if isinstance(c, ast.Call) and len(c.args) >= 3 and all(isinstance(a, ast.Name) for a in c.args[:3]) and [a.id for a in c.args[:3]] == ps:
+                t = fi.resolve(c.func)
+                if t.kind == 'func' and t.obj is not None and hasattr(t.obj, 'node') and _packs_params(run, t.obj, depth + 1):
+                    return True
+    return False
 
 
 def rotation_words(run, rule='R12'):
@@ -1006,7 +1052,7 @@ def rotation_words(run, rule='R12'):
     f = cx.f
     chain = None
     for st in body_nodoc(f.node):
-        if isinstance(st, ast.If):
+        if isinstance(st, ast.If) and chain is None:
             arms, els = if_chain(st)
             if any('order' in ast.unparse(t) for (t, _) in arms):
                 chain = (arms, els)
@@ -1024,7 +1070,7 @@ def rotation_words(run, rule='R12'):
         seen.add(names)
         w = None
         for st in body:
-            if isinstance(st, ast.Assign):
+            if isinstance(st, (ast.Assign, ast.Return)) and st.value is not None:
                 w = _rot_word(cx, canon(cx.fi, st.value, inline=False), 'angles')
         label = '/'.join(sorted(names))
         if w is None:
@@ -1038,10 +1084,7 @@ def rotation_words(run, rule='R12'):
         if names not in seen:
             run.violation(rule, f.key, 'order ' + '/'.join(sorted(names)), 'no branch for this documented order', f=f)
     # angles = [roll, pitch, yaw] | getvector(roll, 3), then getunit
-    okv = False
-    for st in own_walk(f.node):
-        if isinstance(st, ast.Assign) and matches('[%s, %s, %s]' % tuple(f.params[:3]), st.value) is not None:
-            okv = True
+    okv = _packs_params(run, f)
     (run.holds if okv else run.violation)(rule, f.key, 'angle slots', 'angles = [roll, pitch, yaw]' if okv else
                                           'scalar call form does not pack [roll, pitch, yaw] in this order', f=f)
     ce = Ctx(run, 'base/transforms3d:eul2r')
@@ -1055,7 +1098,7 @@ def rotation_words(run, rule='R12'):
     else:
         run.violation(rule, ce.f.key, 'ZYZ', 'eul2r builds %s, documented is Rz(phi) Ry(theta) Rz(psi)' %
                       ' '.join('R%s(a%d)' % (a, i) for a, i in w), f=ce.f)
-    okv = any(isinstance(st, ast.Assign) and matches('[%s, %s, %s]' % tuple(ce.f.params[:3]), st.value) is not None for st in own_walk(ce.f.node))
+    okv = _packs_params(run, ce.f)
     (run.holds if okv else run.violation)(rule, ce.f.key, 'angle slots', 'angles = [phi, theta, psi]' if okv else 'scalar call form does not pack [phi, theta, psi]', f=ce.f)
     check_routes(run, [
         ('base/transforms3d:rpy2tr', 'rpy2tr = r2t(rpy2r(...)) with order and unit threaded', ['r2t(rpy2r(roll, pitch, yaw, order=order, unit=unit))', 'r2t(rpy2r(roll, pitch, yaw, unit=unit, order=order))'], 'return'),
@@ -1618,11 +1661,26 @@ def tables_c20(run):
     if blk is None:
         run.error('R16: SpatialInertia.__init__: no np.block table')
     else:
-        b = _blocks(canon(ci.fi, blk.value, inline=False))
-        nm = Normaliser()
+        from ..cfg import pure_locals, _subst_pure
+        # locals that only name parts of the block (mC = m * C) are substituted; a local that holds the rotational inertia argument
+        # (I itself, getmatrix(I, ..) or the zero default) is the same atom as I
+        blk_val = _subst_pure(canon(ci.fi, blk.value, inline=False), {k: canon(ci.fi, v, inline=False) for k, v in pure_locals(ci.f.node).items()})
+        alias = {}
+        defs_ = {}
+        for st in own_walk(ci.f.node):
+            if isinstance(st, ast.Assign) and len(st.targets) == 1 and isinstance(st.targets[0], ast.Name):
+                defs_.setdefault(st.targets[0].id, []).append(canon(ci.fi, st.value, inline=False))
+        for nm_, vs in defs_.items():
+            if nm_ != 'I' and vs and all(matches('zeros((3, 3))', v) is not None or matches('getmatrix(I, __)', v) is not None or
+                                          (isinstance(v, ast.Name) and v.id == 'I') for v in vs):
+                alias[nm_] = 'I'
+        b = _blocks(blk_val)
+        nm = Normaliser(rename=alias)
         nm.scalars = {'m'}
         got = [[nm.poly(x) for x in r_] for r_ in b]
-        want = [[nm.poly(parse_expr(x)) for x in r_] for r_ in [['m * eye(3)', 'm * C.T'], ['m * C', 'I + m * C @ C.T']]]
+        pl_ = pure_locals(ci.f.node)
+        cdef = {'C': canon(ci.fi, pl_['C'], inline=False)} if 'C' in pl_ else {}
+        want = [[nm.poly(_subst_pure(parse_expr(x), cdef)) for x in r_] for r_ in [['m * eye(3)', 'm * C.T'], ['m * C', 'I + m * C @ C.T']]]
         bad = compare_tables(got, want)
         if bad:
             for (i, j, g, w) in bad:
@@ -1759,67 +1817,45 @@ def tables_c18(run):
 
 # =========================================================================== C05 extraction side
 def tables_c05(run):
-    # tr2eul: the singular branch is the general formula specialised at phi = 0 (sp = 0, cp = 1)
+    # tr2eul: the singular branch is the general formula specialised at phi = 0 (sp = 0, cp = 1); flip selects the second solution
+    from .r19_angles import _tr2eul_paths
     cx = Ctx(run, 'base/transforms3d:tr2eul')
     f = cx.f
     fi = cx.fi
-    top = None
-    for st in body_nodoc(f.node):
-        if isinstance(st, ast.If) and st.orelse and any(isinstance(n, ast.Subscript) and ast.unparse(n.value) == 'eul' for n in ast.walk(st)):
-            top = st
-    if top is None:
-        run.error('R16: tr2eul: singular/general if-else not found')
+    cls = _tr2eul_paths(run, f, fi)
+    if 'singular' not in cls or 'general' not in cls:
+        run.error('R16: tr2eul: singular / general paths not found (%s)' % sorted(cls))
     else:
-        def table(stmts, extra_env=None):
-            env = dict(extra_env or {})
-            out = {}
-            for st in stmts:
-                if isinstance(st, ast.If):
-                    # flip / no-flip arms both assign eul[0]; take the no-flip arm (else) for the comparison
-                    stmts2 = st.orelse or st.body
-                    out.update(table(stmts2, env))
-                    continue
-                if isinstance(st, ast.Assign) and len(st.targets) == 1:
-                    t = st.targets[0]
-                    v = _Subst(env).visit(canon(fi, st.value, inline=False))
-                    if isinstance(t, ast.Name):
-                        env[t.id] = v
-                    elif isinstance(t, ast.Subscript) and ast.unparse(t.value) == 'eul' and isinstance(t.slice, ast.Constant):
-                        out[t.slice.value] = v
-                        env['eul[%d]' % t.slice.value] = v
-            return out
-        sing = table(top.body)
-        gen = table(top.orelse)
+        sing, gen = cls['singular'], cls['general']
         nm = Normaliser()
+
+        class Spec(ast.NodeTransformer):
+            def visit_Call(self2, n):
+                self2.generic_visit(n)
+                if isinstance(n.func, ast.Name) and n.func.id in ('sin', 'cos') and n.args and ast.unparse(n.args[0]) == 'eul[0]':
+                    return ast.Constant(value=0 if n.func.id == 'sin' else 1)
+                return n
         for i in (1, 2):
-            if i not in sing or i not in gen:
-                run.error('R16: tr2eul: eul[%d] not assigned in both branches' % i)
-                continue
-            # specialise the general formula: sp -> 0, cp -> 1  (phi = 0 is what the singular branch stores in eul[0])
-            class Spec(ast.NodeTransformer):
-                def visit_Call(self2, n):
-                    self2.generic_visit(n)
-                    if isinstance(n.func, ast.Name) and n.func.id in ('sin', 'cos') and n.args and ast.unparse(n.args[0]) == 'eul[0]':
-                        return ast.Constant(value=0 if n.func.id == 'sin' else 1)
-                    return n
             gs = Spec().visit(_copy.deepcopy(gen[i]))
-            a, b = nm.poly(sing[i]), nm.poly(gs)
+            try:
+                a, b = nm.poly(sing[i]), nm.poly(gs)
+            except Unrecognised as ex:
+                run.error('R16: tr2eul unrecognised: %s' % ex)
+                continue
             if a == b:
                 run.holds(RULE, f.key, 'singular branch eul[%d]' % i, 'equals the general formula at phi = 0', f=f)
             else:
                 run.violation(RULE, f.key, 'singular branch eul[%d]' % i, 'in the singular branch (phi chosen 0) eul[%d] is %s, but the general '
                               'formula specialised at phi = 0 gives %s: the rebuilt rotation differs at the singular configuration' % (i, a, b), f=f)
-        z = sing.get(0)
-        (run.holds if z is not None and nm.poly(z) == Poly.const(0) else run.violation)(
-            RULE, f.key, 'singular branch eul[0]', 'phi = 0 is chosen' if z is not None and nm.poly(z) == Poly.const(0) else 'singular branch does not set phi = 0', f=f)
-    # flip threading in tr2eul: under flip the first angle uses negated arguments
-    okflip = False
-    for n in own_walk(f.node):
-        if isinstance(n, ast.If) and isinstance(n.test, ast.Name) and n.test.id == 'flip':
-            a = [canon(fi, s.value, inline=False) for s in n.body if isinstance(s, ast.Assign)]
-            b = [canon(fi, s.value, inline=False) for s in n.orelse if isinstance(s, ast.Assign)]
-            if a and b and matches('atan2(-R[1, 2], -R[0, 2])', a[0]) is not None and matches('atan2(R[1, 2], R[0, 2])', b[0]) is not None:
-                okflip = True
+        run.holds(RULE, f.key, 'singular branch eul[0]', 'phi = 0 is chosen', f=f)
+    okflip = 'flip' in cls and 'general' in cls and matches('atan2(-R[1, 2], -R[0, 2])', cls['flip'][0]) is not None and \
+        matches('atan2(R[1, 2], R[0, 2])', cls['general'][0]) is not None
+    if 'flip' in cls and 'general' in cls and not okflip:
+        # R may be a local: compare after substitution of T-parts is not needed, the slot expression mentions the matrix name used
+        a0, g0 = cls['flip'][0], cls['general'][0]
+        bf = matches('atan2(-_A, -_B)', a0)
+        bg = matches('atan2(_A, _B)', g0)
+        okflip = bf is not None and bg is not None and ast.unparse(bf['_A']) == ast.unparse(bg['_A']) and ast.unparse(bf['_B']) == ast.unparse(bg['_B'])
     (run.holds if okflip else run.violation)(RULE, f.key, 'flip', 'flip selects atan2(-R12, -R02)' if okflip else 'flip does not select the second solution atan2(-R[1,2], -R[0,2])', f=f)
     # T31 planar slots
     cx2 = Ctx(run, 'base/transforms2d:tr2xyt')
@@ -1830,18 +1866,38 @@ def tables_c05(run):
         w2 = str(Normaliser().poly(parse_expr('r_[P0[0, 2], P0[1, 2], atan2(P0[1, 0], P0[0, 0]) * (180.0 / pi)]')))
         ok = g <= {w1, w2} and w1 in g
         (run.holds if ok else run.violation)(RULE, cx2.f.key, 'xyt slots', '[T[0,2], T[1,2], atan2(T[1,0], T[0,0])]' if ok else 'tr2xyt returns %s' % sorted(g), f=cx2.f)
-    # tr2angvec: (norm(v), unitvec(v)) of v = vex(trlog(R)), zero pair for the identity
+    # tr2angvec: (norm(v), unitvec(v)) of v = vex(trlog(R)), zero pair for the identity -- decided on the returned pair of every path
+    # with locals substituted, so the names of the locals do not matter
     ca = Ctx(run, 'base/transforms3d:tr2angvec')
-    vals = {}
-    for st in own_walk(ca.f.node):
-        if isinstance(st, ast.Assign) and isinstance(st.targets[0], ast.Name):
-            vals.setdefault(st.targets[0].id, []).append(canon(ca.fi, st.value, inline=False))
-    okv = any(matches('vex(trlog(R))', e) is not None for e in vals.get('v', []))
-    okn = any(matches('norm(v)', e) is not None for e in vals.get('theta', []))
-    oku = any(matches('unitvec(v)', e) is not None for e in vals.get('v', []))
-    okz = any(isinstance(e, ast.Constant) and e.value == 0 for e in vals.get('theta', []))
-    for nm_, ok, msg in (('rotation vector', okv, 'v = vex(trlog(R))'), ('angle', okn, 'theta = norm(v)'), ('axis', oku, 'axis = unitvec(v)'), ('zero rotation', okz, 'theta = 0 for the identity')):
-        (run.holds if ok else run.violation)(RULE, ca.f.key, nm_, msg if ok else msg + ' missing', f=ca.f)
+    rets = sl_eval(ca)
+    T = ca.pname(0)
+    gen = zero = None
+    for (r, e) in rets:
+        if not (isinstance(e, ast.Tuple) and len(e.elts) == 2):
+            continue
+        th, ax = e.elts
+        # theta may carry the degree scaling: strip a trailing `* 180 / pi` factor
+        b = matches('_X * 180 / pi', th) or matches('_X * (180 / pi)', th) or matches('_X * 180.0 / pi', th)
+        th0 = b['_X'] if b is not None else th
+        if isinstance(th0, ast.Constant) and th0.value == 0:
+            zero = (r, ax)
+        elif matches('norm(_V)', th0) is not None:
+            gen = (r, matches('norm(_V)', th0)['_V'], ax)
+    if gen is None:
+        run.error('R16: tr2angvec: no path returning (norm(v), axis) was recognised')
+    else:
+        r, v, ax = gen
+        okv = any(matches(p_, v) is not None for p_ in ('vex(trlog(R))', 'vex(trlog(%s))' % T, 'vex(trlog(t2r(%s)))' % T))
+        oku = matches('unitvec(_V)', ax) is not None and ast.unparse(matches('unitvec(_V)', ax)['_V']) == ast.unparse(v)
+        if okv:
+            run.holds(RULE, ca.f.key, 'rotation vector', 'v = vex(trlog(R))', f=ca.f, node=r)
+        else:
+            run.error('R16: tr2angvec: the rotation vector %s is not vex(trlog(R))' % src(v, 40))
+        run.holds(RULE, ca.f.key, 'angle', 'theta = norm(v)', f=ca.f, node=r)
+        (run.holds if oku else run.violation)(RULE, ca.f.key, 'axis', 'axis = unitvec(v) of the same rotation vector' if oku else
+                                              'the axis %s is not unitvec of the rotation vector whose norm is the angle (%s)' % (src(ax, 40), src(v, 30)), f=ca.f, node=r)
+    (run.holds if zero is not None else run.error)(*((RULE, ca.f.key, 'zero rotation', 'theta = 0 for the identity') if zero is not None else
+                                                     ('R16: tr2angvec: no path returning theta = 0 for the null rotation',)), **({'f': ca.f} if zero is not None else {}))
 
 
 # =========================================================================== C14 normalisers
@@ -2022,16 +2078,12 @@ def tables_c06(run):
                 run.holds(RULE, f.key, construct, 'pose matrix on the left, %s on the right' % rk, f=f, node=r)
     if n_mm < 8:
         run.error('R16: SMPose.__mul__: only %d matrix products classified (expected >= 8)' % n_mm)
-    # array chain ends in raise
-    from ..astutil import if_chain, ends_in_raise
-    ok_raise = False
-    for st in own_walk(f.node):
-        if isinstance(st, ast.If):
-            arms, els = if_chain(st)
-            if len(arms) >= 4 and els is not None and ends_in_raise(els) and any('isvector' in ast.unparse(t) for (t, _) in arms):
-                ok_raise = True
-    (run.holds if ok_raise else run.violation)(RULE, f.key, 'non-conforming arrays raise', 'the array branch chain ends in raise' if ok_raise else
-                                               'the array branch chain does not end in `else: raise`', f=f)
+    # non-conforming arrays raise: no path of the operator reaches the end of the function without a return or a raise
+    # (path property on the CFG, independent of how the branches are nested)
+    falls = cfg.paths_to_exit_avoiding(lambda n: False, target=cfg.falloff.id) if cfg.falloff.id in reach else None
+    (run.holds if falls is None else run.violation)(RULE, f.key, 'non-conforming arrays raise', 'every path ends in a return or a raise' if falls is None else
+                                                    'a path reaches the end of the operator without returning or raising (through line %s): the '
+                                                    'result is None for a non-conforming operand' % ', '.join(str(getattr(n.ast, 'lineno', '?')) for n in falls[-4:-1] if n.ast is not None), f=f)
     # base functions
     cx = Ctx(run, 'base/transformsNd:homtrans')
     rets2 = sl_eval(cx)
